@@ -51,6 +51,23 @@ def updatedAttrs {β : Type} (a : List (String × AttrVal β)) (passed : List (S
     | some (.none) => kv
     | some v => (kv.1, v)
     | Option.none => kv
+
+/-- sorted copy of a list of labels (insertion sort; Python's `sorted`) -/
+def sortLabels (l : List String) : List String :=
+  l.foldr (fun a acc => (acc.takeWhile fun b => b < a) ++ a :: (acc.dropWhile fun b => b < a)) []
+
+/-- `dict_to_array(schema, inval)` for a dictionary of per-channel values: accepted iff its sorted keys
+equal the sorted labels of a coordinate of the schema (first match in `coords`); the result is a labelled
+array along that coordinate carrying the dictionary's keys, in the dictionary's own order, with its values -/
+def dictToArray {β : Type} (coords : List (String × List String)) (d : List (String × β)) : Option (AttrVal β) :=
+  match coords.find? fun c => sortLabels (d.map (·.1)) == sortLabels c.2 with
+  | some c => some (.labelled [(c.1, d.map (·.1))] (d.map (·.2)))
+  | Option.none => Option.none
+
+/-- xarray `.sel(<dim>=l)` on a labelled 1-d attribute -/
+def AttrVal.sel {β : Type} (l : String) : AttrVal β → Option β
+  | .labelled [(_, labels)] vals => (labels.zip vals).lookup l
+  | _ => Option.none
 end attrs
 
 section num
